@@ -77,5 +77,4 @@ struct Nested {
     12: set<list<double>> s_list_dbl,
     13: map<list<double>, i32> m_list_dbl_key,
     14: map<double, list<double>> m_dbl_key,
-    15: set<set<double>> s_set_dbl,
 }
